@@ -72,6 +72,20 @@ def check_C18(ctx, unit, nbits):
         if not masks:
             raise AnalysisBroken("anchor vanished: bitset::mask_last_bit")
         mask_did = {m.did for m in masks}
+        last_word = nbits // 64
+        mask_val = (1 << (nbits % 64)) - 1
+
+        def mask_events(f):
+            """Calls of mask_last_bit(), or its body spelled out: buffer[N/64] &= (1 << N%64) - 1."""
+            ev = [n for n in f.events() if n.is_call() and n.callee and n.callee["did"] in mask_did]
+            for n in f.events():
+                if n.kind == "CompoundAssignOperator" and n.op == "&=":
+                    p = path(n.children[0])
+                    if p and p[:2] == ("this", "buffer") and len(p) == 3 and p[2] == "[%d]" % last_word and \
+                            n.children[1].strip().cv() == mask_val:
+                        ev.append(n)
+            return ev
+        vacuous = (nbits % 64 == 0)      # nothing at or above N exists in the last word
 
         def buffer_writes(f):
             """[(element, index kind, rhs)] : writes to words of this->buffer (incl. through range-for refs / pointers)."""
@@ -128,8 +142,8 @@ def check_C18(ctx, unit, nbits):
                                     idxs = idxs | {"[all] via delegation"}
                 d = [w for w in bw if dirty(f, w[2], w[3])]
                 masked = True
-                if d:
-                    mc = [n for n in f.events() if n.is_call() and n.callee and n.callee["did"] in mask_did]
+                if d and not vacuous:
+                    mc = mask_events(f)
                     masked = any(f.postdominates(m.id, d[-1][0].id) or f.reaches(d[-1][0].id, m.id) and
                                  f.dominates_block(f.positions()[m.id][0], f.exit) for m in mc)
                 ctx.inst("I.bitset-ctor", "%s%s" % (f.sig, tag), allw and masked, f.loc,
@@ -147,9 +161,13 @@ def check_C18(ctx, unit, nbits):
             if key in EXEMPT:
                 ctx.inst("I.mask-after-dirty-write", "%s%s" % (f.sig, tag), True, f.loc, "exempt: " + EXEMPT[key], f, nontrivial=False)
                 continue
-            mc = [n for n in f.events() if n.is_call() and n.callee and n.callee["did"] in mask_did]
+            mc = mask_events(f)
             bad = []
             for w in d:
+                if vacuous:
+                    continue
+                if any(m.id == w[0].id for m in mc):
+                    continue
                 if not any(f.postdominates(m.id, w[0].id) for m in mc):
                     bad.append("write %s at %s (%s) is not followed by mask_last_bit() on every path" % (canon(w[0])[:50], w[0].loc, dirty(f, w[2], w[3])))
             ctx.inst("I.mask-after-dirty-write", "%s%s" % (f.sig, tag), not bad, f.loc,
@@ -278,7 +296,7 @@ def check_C18(ctx, unit, nbits):
     n = check_self_recursion(ctx, unit, [f for f in unit.functions if f.uq.startswith("frg::")])
     # PRNGs
     for cls, consts, mins in (("frg::mt19937", MT, 2), ("frg::pcg_basic32", PCG, 2)):
-        fs = [f for f in unit.functions if f.owner_cls == cls]
+        fs = [f for f in unit.functions if f.owner_cls == cls or f.uq.startswith(cls + "::")]
         if len(fs) < mins:
             raise AnalysisBroken("anchor vanished: %s" % cls)
         have = set()
@@ -300,7 +318,14 @@ def check_C18(ctx, unit, nbits):
             for r in rets:
                 v = r.child("val").strip()
                 if v.kind == "BinaryOperator" and v.op == "%" and v.children[1].strip().kind == "DeclRefExpr" and v.children[1].strip().d["d"] == b:
-                    thr = any(c.strip().kind == "BinaryOperator" and c.strip().op == ">=" and t for c, t in flow.facts_at(f, r.id))
+                    rv = std_unwrap(v.children[0])
+                    thr = False
+                    for c, t in flow.facts_at(f, r.id):
+                        rel = flow.fact_relation(c, t)
+                        # threshold <= r
+                        if rel and rel[1] == "<=" and std_unwrap(rel[2]).kind == "DeclRefExpr" and rv.kind == "DeclRefExpr" \
+                                and std_unwrap(rel[2]).d["d"] == rv.d["d"]:
+                            thr = True
                     ok = thr
             ctx.inst("T.prng-constants", f.sig, ok, f.loc, "returns r %% bound under r >= threshold: %s" % ok, f)
     for f in unit.functions:
